@@ -14,9 +14,11 @@ the free exponent b and on the geometry — is re-expressed by
 
     scale σ d x = M^m · L^l · T^t · Θ^θ · x .
 
-`UnitCovariant` is the statement of the property for one returned field of one solver.
-The per-solver tables (dimension of every parameter and field, quoted from the
-docstrings) are in `EPV/Props/C08/Hydro.lean` next to the theorems that use them.
+`UnitCovariant` is the statement of the property for one returned field of one solver,
+`SameBranch` for the selector of the decision-tree branch.  The per-solver hand tables
+(dimension of every parameter and field, quoted from the docstrings) of the closed-form
+hydro solvers are in `EPV/Spec/UnitsHydro.lean`; the derivation system that proves
+covariance by structural dimensional analysis is `EPV/Lemmas/Units.lean`.
 -/
 import Mathlib.Analysis.SpecialFunctions.Pow.Real
 
